@@ -103,6 +103,9 @@ func run() {
 			if worldOp(out, &inst, line.Op, rawLine, scratch) {
 				continue
 			}
+			if daemonOp(out, line.Op, rawLine, scratch) {
+				continue
+			}
 			if !extraOp(out, &inst, line.Op, line) {
 				emit(out, map[string]interface{}{"id": line.ID, "error": "unknown op " + line.Op})
 			}
